@@ -125,6 +125,9 @@ def oracle_ecs(case, impl):
         return "real code did not complete: " + impl[:80]
     if f[0] == "post":
         return check_consumed(unhex(f[1]), unhex(impl))
+    if f[0] == "post53":
+        r = check_consumed(unhex(f[1]), unhex(impl))
+        return None if r is None else "datagram sent to the plain-DNS upstream: " + r
     if f[0] == "encq":
         d = kv("x " + impl)
         enc, out = unhex(d["enc"]), unhex(d["payload"])
